@@ -234,6 +234,7 @@ func ruleMatcherKeys(c *Ctx, rule string) {
 		return
 	}
 	n := 0
+	seenKeyed := map[[2]string]bool{}
 	for _, site := range callSitesOf(p, find) {
 		args := site.Common().Args
 		mc, ok := args[len(args)-1].(*ssa.MakeClosure)
@@ -312,6 +313,11 @@ func ruleMatcherKeys(c *Ctx, rule string) {
 		sort.Strings(cases)
 		for _, cs := range cases {
 			n++
+			root := site.Parent()
+			for root.Parent() != nil {
+				root = root.Parent()
+			}
+			seenKeyed[[2]string{root.Name(), strings.TrimPrefix(cs, "*imapclient.")}] = true
 			key := fmt.Sprintf("%s matcher, case %s", fnKey(site.Parent()), cs)
 			var bad []truePoint
 			np := 0
@@ -344,6 +350,38 @@ func ruleMatcherKeys(c *Ctx, rule string) {
 	if n == 0 {
 		c.unresolvedRoot("keyed matchers")
 	}
+	// Reference table (seeding round 5): the (handler, command type) pairs that
+	// were confirmed by reading to be keyed on the response — the response names
+	// the command it answers (mailbox, quota root, message number, correlator
+	// tag). A pair that is no longer keyed — the relation was dropped from the
+	// matcher, or the handler stopped scanning the pending list with a matcher
+	// (first-of-type lookup) — delivers a response about something else, or
+	// drops the response of a command that is not the oldest of its type.
+	for _, want := range keyedMatcherTable {
+		if seenKeyed[want] {
+			continue
+		}
+		h := p.Func("imapclient", "Client", want[0])
+		if h == nil {
+			c.unresolvedRoot("(*Client)." + want[0] + " (keyed response handler)")
+			continue
+		}
+		c.fail(rule, fmt.Sprintf("(*Client).%s matcher, case *imapclient.%s is keyed on the response", want[0], want[1]), h.Pos(),
+			fmt.Sprintf("%s no longer selects the pending %s by a relation between the command and the decoded response (no findPendingCmdFunc matcher case comparing a field of the command with the response): with several such commands in flight a response is attached to the wrong one or dropped", want[0], want[1]))
+	}
+}
+
+// keyedMatcherTable: handler, command type (confirmed on the pinned tree).
+var keyedMatcherTable = [][2]string{
+	{"handleESearch", "SearchCommand"},
+	{"handleFetch", "FetchCommand"},
+	{"handleList", "SelectCommand"},
+	{"handleMetadata", "GetMetadataCommand"},
+	{"handleQuota", "GetQuotaCommand"},
+	{"handleQuota", "GetQuotaRootCommand"},
+	{"handleQuotaRoot", "GetQuotaRootCommand"},
+	{"handleStatus", "ListCommand"},
+	{"handleStatus", "StatusCommand"},
 }
 
 // ruleNilableFields: C11.f. Belief consistency on nil-able pointer fields of
